@@ -2,6 +2,8 @@ package flows
 
 import (
 	"fmt"
+	"maps"
+	"slices"
 	"strings"
 
 	"github.com/nyaruka/gocommon/i18n"
@@ -98,8 +100,9 @@ func (t *TemplateTranslation) Preview(vars []*TemplatingVariable) *MsgContent {
 
 	for _, comp := range t.Components() {
 		content := comp.Content()
-		for key, index := range comp.Variables() {
-			variable := vars[index]
+		compVars := comp.Variables()
+		for _, key := range slices.Sorted(maps.Keys(compVars)) {
+			variable := vars[compVars[key]]
 
 			if variable.Type == "text" {
 				content = strings.ReplaceAll(content, fmt.Sprintf("{{%s}}", key), variable.Value)
